@@ -6,7 +6,7 @@ def run(tier, replay=None):
     ck = Check("C18", tier, "model_checking")
     mod = os.path.join(REPO, "cmd/build_sample_md")
     hp = [os.path.join(VERIF, "harness/bsm"), API_DIR]
-    N = 5 if tier == "quick" else 7
+    N = 5 if tier == "quick" else 6  # 7 exceeds 10^6 paths since runs also start with an old README in place
     env = {"VERIF_N": str(N)}
     ck.bounds = {"list_file_bytes": N, "sample_file_bytes": 2, "entries": "as many as fit in the list bytes"}
     ck.assumptions = ["list bytes are newline, blank, '.', '%' or a lower-case letter; every non-empty line starts with a letter (a file name)",
